@@ -252,16 +252,29 @@ func randomWoHeader(r *rand.Rand, side forkSide, loc common.Location, difficulty
 	data := make([]byte, 1+r.Intn(40))
 	r.Read(data)
 	data[0] = 0
-	var sha, scr *types.PowShareDiffAndCount
-	var shaT, scrT, kd *big.Int
-	if side != preFork {
-		sha = types.NewPowShareDiffAndCount(rBig(r, 8), rBig(r, 5), rBig(r, 5))
-		scr = types.NewPowShareDiffAndCount(rBig(r, 8), rBig(r, 5), rBig(r, 5))
-		shaT, scrT, kd = rBig(r, 5), rBig(r, 5), rBig(r, 10)
-	}
-	wh := types.NewWorkObjectHeader(rHash(r), rHash(r), rBig(r, 4), new(big.Int).Set(difficulty), primeTerminusFor(side, r), rHash(r),
-		types.EncodeNonce(r.Uint64()), 0, 1700000000+uint64(r.Intn(1000000)), loc, quaiAddr(r, loc), data, nil, scr, sha, shaT, scrT, kd)
+	// built the way ProtoDecode builds it: zero struct + setters; the
+	// share-difficulty fields stay nil before the fork
+	wh := new(types.WorkObjectHeader)
+	wh.SetHeaderHash(rHash(r))
+	wh.SetParentHash(rHash(r))
+	wh.SetNumber(rBig(r, 4))
+	wh.SetDifficulty(new(big.Int).Set(difficulty))
+	wh.SetPrimeTerminusNumber(primeTerminusFor(side, r))
+	wh.SetTxHash(rHash(r))
+	wh.SetNonce(types.EncodeNonce(r.Uint64()))
+	wh.SetLock(0)
+	wh.SetTime(1700000000 + uint64(r.Intn(1000000)))
+	wh.SetLocation(loc)
+	wh.SetPrimaryCoinbase(quaiAddr(r, loc))
+	wh.SetData(data)
 	wh.SetMixHash(rHash(r))
+	if side != preFork {
+		wh.SetShaDiffAndCount(types.NewPowShareDiffAndCount(rBig(r, 8), rBig(r, 5), rBig(r, 5)))
+		wh.SetScryptDiffAndCount(types.NewPowShareDiffAndCount(rBig(r, 8), rBig(r, 5), rBig(r, 5)))
+		wh.SetShaShareTarget(rBig(r, 5))
+		wh.SetScryptShareTarget(rBig(r, 5))
+		wh.SetKawpowDifficulty(rBig(r, 10))
+	}
 	return wh
 }
 
